@@ -110,9 +110,26 @@ func lockCall(s ast.Stmt) (se *ast.SelectorExpr, write bool, ok bool) {
 	return nil, false, false
 }
 
+// unlockCall: is the statement a plain x.Unlock() / x.RUnlock() call?
+func unlockCall(s ast.Stmt) bool {
+	es, ok := s.(*ast.ExprStmt)
+	if !ok {
+		return false
+	}
+	ce, ok := es.X.(*ast.CallExpr)
+	if !ok {
+		return false
+	}
+	se, ok := ce.Fun.(*ast.SelectorExpr)
+	return ok && (se.Sel.Name == "Unlock" || se.Sel.Name == "RUnlock")
+}
+
 func (r *rewriter) stmts(list []ast.Stmt) []ast.Stmt {
 	out := make([]ast.Stmt, 0, 2*len(list))
+	prevUnlock := false
 	for _, s := range list {
+		afterUnlock := prevUnlock
+		prevUnlock = unlockCall(s)
 		if r.stmtHook {
 			if se, write, ok := lockCall(s); ok {
 				r.hooked = true
@@ -136,7 +153,11 @@ func (r *rewriter) stmts(list []ast.Stmt) []ast.Stmt {
 				continue
 			}
 			r.hooked = true
-			out = append(out, &ast.ExprStmt{X: hookCall("Hit", newSite(r.fset, r.rel, s.Pos(), r.fn, "stmt"))})
+			kind := "stmt"
+			if afterUnlock {
+				kind = "unlocked" // the statement right after a lock was given up: where check-then-act windows open
+			}
+			out = append(out, &ast.ExprStmt{X: hookCall("Hit", newSite(r.fset, r.rel, s.Pos(), r.fn, kind))})
 			if g, ok := s.(*ast.GoStmt); ok {
 				out = append(out, r.goStmt(g))
 				continue
